@@ -87,11 +87,18 @@ def run_e2e(report, n_fonts, rng):
         H + ' fill="red"><path d="M10,10 L40,10 L40,40 L10,40 Z"/><path d="M50,50 L80,50 L80,70 Z" fill="blue"/></svg>',
         H + '><g fill="#00ff00"><path d="M10,60 L40,60 L40,90 L10,90 Z"/><g fill="blue"><path d="M50,10 L90,10 L70,45 Z"/></g></g></svg>',
     ]
-    directed = [(f, [(build.filename_for((0x1F600 + k,)), t, (0x1F600 + k,)) for k, t in enumerate(inherited)]) for f in ("untouchedsvg", "untouchedsvgz", "picosvg")]
+    directed = [(f, [(build.filename_for((0x1F600 + k,)), t, (0x1F600 + k,)) for k, t in enumerate(inherited)], None, dict()) for f in ("untouchedsvg", "untouchedsvgz", "picosvg")]
+    # the same oracle on fonts built by the real command line, options by flag and by file (zeros included)
+    docs, s1 = e2e.gen_sources(rng, n=3)
+    directed.append(("picosvg", s1, "flag", dict(upem=1000, ascender=1000, descender=0, width=0)))
+    docs, s2 = e2e.gen_sources(rng, n=2)
+    directed.append(("untouchedsvg", s2, "file", dict(upem=1024, ascender=900, descender=0, width=1024, reuse_tolerance=-1.0)))
+    via = None
     for i in range(len(directed) + n_fonts):
+        via = None
         if i < len(directed):
-            fmt, srcs = directed[i]
-            over = dict(color_format=fmt)
+            fmt, srcs, via, extra = directed[i]
+            over = dict(color_format=fmt, **extra)
         else:
             fmt = formats[i % len(formats)]
             over = e2e.gen_config(rng, fmt)
@@ -100,11 +107,12 @@ def run_e2e(report, n_fonts, rng):
         raw = fmt.startswith("untouched")
         case = dict(kind="e2e", format=fmt, config={k: str(v) for k, v in over.items()}, sources=[s[1] for s in srcs])
         try:
-            font, cfg, picos, data = build.build_inprocess(over, srcs)
+            font, cfg, picos, data = build.build_cli(over, srcs, via) if via else build.build_inprocess(over, srcs)
         except Exception as ex:
             case["error"] = f"{type(ex).__name__}: {ex}"
             report_failure(report, f"e2e_build_{i}", case)
             return
+        report.hist("e2e.built_by", "command line, options by " + via if via else "in process")
         n, problems = check_otsvg_glyphs(font, cfg, srcs, picos, raw)
         report.count(("e2e", fmt, tuple(s[1] for s in srcs), str(sorted(over.items(), key=lambda kv: kv[0]))), n > 0, n)
         report.hist("e2e.format", fmt)
